@@ -876,55 +876,46 @@ func runC06(s c06Scn) []ev {
 		atomic.StoreInt32(&x.e.mode, mBlackhole)
 		t0 := time.Now()
 		c0 := readCounters(key)
-		window := time.Duration(2*s.FlushMs) * time.Millisecond
-		if window < 50*time.Millisecond {
-			window = 50 * time.Millisecond
-		}
-		// blocked = nothing written to the connection for `window` while lines were being dropped
-		lastOut, lastOutT, dropsThen := c0.out, t0, c0.slowConn+c0.down
-		saturated := false
-		budget := s.Lines - post - 2100
-		for i < budget && time.Since(t0) < 30*time.Second {
-			i++
-			hand(i)
-			if i%4 != 0 {
-				continue
-			}
-			c := readCounters(key)
-			drops := c.slowConn + c.down
-			now := time.Now()
-			if c.out != lastOut {
-				lastOut, lastOutT, dropsThen = c.out, now, drops
-			} else if now.Sub(lastOutT) >= window && drops > dropsThen {
-				saturated = true
-				break
-			}
-			if drops > c0.slowConn+c0.down {
-				time.Sleep(100 * time.Microsecond) // dropping already: no need to burn the line budget
-			}
-		}
-		satAt, tSat := i, time.Now()
-		cSat := readCounters(key).sub(x.base)
+		// The pause lasts until the writer has been blocked for `hold`: nothing was written to the connection for
+		// that long although lines kept coming and at least 50 of them were dropped meanwhile (conn.In full the
+		// whole time).  A writer that was only starved of CPU moves again and restarts the clock.  Lines that are
+		// dropped are followed by a short sleep (they do not help to fill the buffers; the writer gets the CPU).
 		hold := time.Duration(s.StallMs) * time.Millisecond
-		pace := hold / 2000
+		pace := hold / 1500
 		if pace < 200*time.Microsecond {
 			pace = 200 * time.Microsecond
 		}
-		// the pause lasts until nothing has been written to the connection for `hold` (a writer that was only
-		// starved of CPU, not blocked, restarts the clock), at most 10 x hold
-		tHold, resets, outSeen := tSat, 0, readCounters(key).out
-		for n := 0; time.Since(tHold) < hold && time.Since(tSat) < 10*hold; n++ {
-			if n < 2000 && i < s.Lines-post {
-				i++
-				hand(i)
-			}
-			time.Sleep(pace)
-			if o := readCounters(key).out; o != outSeen {
-				outSeen, tHold = o, time.Now()
+		outSeen, stableSince, dropsSeen, dropsStable, resets := c0.out, t0, c0.slowConn+c0.down, 0, 0
+		saturated := false
+		satAt, outBlocked := 0, int64(0)
+		for i < s.Lines-post && time.Since(t0) < 90*time.Second {
+			i++
+			hand(i)
+			c := readCounters(key)
+			now := time.Now()
+			if c.out != outSeen {
+				outSeen, stableSince, dropsStable = c.out, now, 0
 				resets++
 			}
+			if d := c.slowConn + c.down; d != dropsSeen {
+				first := dropsStable == 0
+				dropsStable += int(d - dropsSeen)
+				dropsSeen = d
+				if first {
+					satAt, outBlocked = i, c.out-x.base.out
+				}
+				if now.Sub(stableSince) >= hold && dropsStable >= 50 {
+					saturated = true
+					break
+				}
+				time.Sleep(pace)
+			}
 		}
-		held := time.Since(tHold)
+		tSat := stableSince
+		held := time.Since(stableSince)
+		if !saturated {
+			held = 0
+		}
 		cRes := readCounters(key).sub(x.base)
 		acc := atomic.LoadInt64(&x.e.accepted)
 		if s.Kind == "stallclose" {
@@ -938,7 +929,7 @@ func runC06(s c06Scn) []ev {
 		return ev{"ev": "stall", "scn": s.ID, "kind": s.Kind, "saturated": saturated, "stall_at": pre, "blocked_at": satAt,
 			"fill_ms": int(tSat.Sub(t0) / time.Millisecond), "held_ms": int(held / time.Millisecond), "flush_ms": s.FlushMs,
 			"paused_ms": int(time.Since(t0) / time.Millisecond), "hold_restarts": resets,
-			"out_blocked": int(cSat.out), "out_resume": int(cRes.out), "slow_conn_resume": int(cRes.slowConn),
+			"out_blocked": int(outBlocked), "out_resume": int(cRes.out), "slow_conn_resume": int(cRes.slowConn),
 			"down_resume": int(cRes.down), "accepted_resume": int(acc), "online_resume": x.d.Snapshot().Online}
 	}
 	go func() {
